@@ -222,6 +222,9 @@ func (m *spaceMon) onAck(rs [][2]int64 /* (Smallest, Largest), as in the frame *
 			m.fail("recvph/ack-malformed", fmt.Sprintf("%s: ACK ranges %v, %v not descending/disjoint/non-adjacent", m.name, rs[i-1], r))
 		}
 	}
+	if !wire.VerifValidateAckRanges(rs) {
+		m.fail("recvph/ack-invalid", fmt.Sprintf("%s: generated ACK %v is rejected by AckFrame.validateAckRanges", m.name, rs))
+	}
 	acked := numSet(rs)
 	for q := range acked {
 		if !m.recv[q] {
@@ -339,6 +342,7 @@ type rphStats struct {
 	pruned, histOps, handlerOps, samples, hsamples int
 	acks, acksMulti, dupTrue, dupForced, emptyAck, panics, queued, alarmAcks int
 	opKinds                                                                   map[string]int
+	ackSamples                                                                [][][2]int64
 }
 
 func genHistRandom(r *u.Rng) []histOp {
@@ -736,6 +740,9 @@ func (x *handlerRunner) do(o hOp) (out string, dupFlag bool) {
 	case "getack":
 		if ack != nil && sp >= 0 && o.lvl != int64(protocol.Encryption0RTT) {
 			x.st.acks++
+			if len(x.st.ackSamples) < 400 && len(ackRs) > 0 && len(ackRs) <= 12 {
+				x.st.ackSamples = append(x.st.ackSamples, append([][2]int64{}, ackRs...))
+			}
 			if len(ackRs) > 1 {
 				x.st.acksMulti++
 				x.nontrivial = true
@@ -1032,6 +1039,8 @@ func runRecvPH(w *bufio.Writer, seed uint64, n int, _ []string) {
 		modes[mode]++
 		genHandlerCase(w, r.Fork(), mode, st)
 	}
+	nValid := emitValidCases(w, r.Fork(), st, n/4+20)
+	fmt.Fprintf(w, "DIST\tvalidate+ackspacket\t%d\n", nValid)
 	fmt.Fprintf(w, "DIST\thist-orders\t%d\nDIST\thist-random+long\t%d\n", nOrders, nHist-nOrders)
 	fmt.Fprintf(w, "DIST\thandler-disciplined\t%d\nDIST\thandler-free\t%d\nDIST\thandler-long\t%d\n", modes[0], modes[1], modes[2])
 	fmt.Fprintf(w, "DIST\tcases-with-range-limit-pruning\t%d\n", st.pruned)
@@ -1046,4 +1055,78 @@ func runRecvPH(w *bufio.Writer, seed uint64, n int, _ []string) {
 		fmt.Fprintf(w, "DIST\top-%s\t%d\n", k, st.opKinds[k])
 	}
 	fmt.Fprintf(w, "DIST\thist-ops\t%d\n", st.histOps)
+}
+
+// emitValidCases: AckFrame.validateAckRanges and AckFrame.AcksPacket on ACK range lists the
+// handler generated and on perturbed copies (swapped, adjacent, inverted, overlapping ranges).
+func emitValidCases(w *bufio.Writer, r *u.Rng, st *rphStats, n int) int {
+	cnt := 0
+	for i := 0; i < n; i++ {
+		var rs [][2]int64
+		if len(st.ackSamples) > 0 && r.Chance(4, 5) {
+			rs = append(rs, st.ackSamples[r.Intn(len(st.ackSamples))]...)
+		} else {
+			top := int64(r.Range(10, 60))
+			for k := r.Range(0, 5); k > 0 && top > 3; k-- {
+				l := int64(r.Range(0, 3))
+				rs = append(rs, [2]int64{top - l, top})
+				top -= l + int64(r.Range(2, 5))
+			}
+		}
+		if len(rs) > 0 {
+			switch r.Intn(8) {
+			case 0:
+				j := r.Intn(len(rs))
+				rs[j][0], rs[j][1] = rs[j][1]+1, rs[j][0] // inverted
+			case 1:
+				if len(rs) > 1 {
+					j := 1 + r.Intn(len(rs)-1)
+					rs[j][1] = rs[j-1][0] - 1 // adjacent to its predecessor
+				}
+			case 2:
+				if len(rs) > 1 {
+					j := 1 + r.Intn(len(rs)-1)
+					rs[j], rs[j-1] = rs[j-1], rs[j] // out of order
+				}
+			case 3:
+				if len(rs) > 1 {
+					j := 1 + r.Intn(len(rs)-1)
+					rs[j][1] = rs[j-1][0] // overlapping
+				}
+			}
+		}
+		valid := false
+		var acks []string
+		func() {
+			defer func() {
+				if e := recover(); e != nil {
+					fmt.Fprintf(w, "MONFAIL\trecvph/panic\tpanic in validateAckRanges/AcksPacket: %v\t%v\n", e, rs)
+				}
+			}()
+			valid = wire.VerifValidateAckRanges(rs)
+			want := len(rs) > 0
+			for j, x := range rs {
+				if x[0] > x[1] || (j > 0 && !(rs[j-1][0] > x[1]+1)) {
+					want = false
+				}
+			}
+			if valid != want {
+				fmt.Fprintf(w, "MONFAIL\trecvph/validate-wrong\tvalidateAckRanges=%v on ranges that are well-formed=%v\t%v\n", valid, want, rs)
+			}
+			if valid {
+				lo, hi := rs[len(rs)-1][0], rs[0][1]
+				for k := 0; k < 6; k++ {
+					p := lo - 1 + int64(r.Intn(int(hi-lo)+3))
+					a := wire.VerifAcksPacket(rs, p)
+					if a != covered(rs, p) {
+						fmt.Fprintf(w, "MONFAIL\trecvph/ackspacket\tAcksPacket(%d)=%v on %v\t%v\n", p, a, rs, rs)
+					}
+					acks = append(acks, u.Pair(u.Z(p), u.B(a)))
+				}
+			}
+		}()
+		fmt.Fprintf(w, "CASE %d %s\n", b2i(len(rs) > 1), u.App("ValidCase", ivs(rs), u.B(valid), u.List(acks)))
+		cnt++
+	}
+	return cnt
 }
